@@ -162,14 +162,14 @@ fn event_logger_life() -> ! {
         let mut counts = vec![list(&dir, "").len()];
         for b in bursts {
             for k in 0..b {
-                event_logger::write_event(log::Level::Info, format!("e{k}"), "m", "mod", "none");
+                event_logger::write_event(if k % 3 == 0 { log::Level::Error } else if k % 5 == 0 { log::Level::Warn } else { log::Level::Info }, format!("e{k}"), "m", "mod", "none");
             }
             tokio::time::sleep(Duration::from_millis(1001)).await;
             tokio::task::yield_now().await;
             counts.push(list(&dir, "").len());
         }
         for k in 0..last {
-            event_logger::write_event(log::Level::Info, format!("last{k}"), "m", "mod", "none");
+            event_logger::write_event(if k % 2 == 0 { log::Level::Error } else { log::Level::Info }, format!("last{k}"), "m", "mod", "none");
         }
         event_logger::stop();
         let _ = tokio::time::timeout(Duration::from_secs(30), h).await;
@@ -294,7 +294,7 @@ fn main() {
                 for (ti, bi) in seq.iter().enumerate() {
                     let before = list(&ev_dir, "").len();
                     for k in 0..bursts[*bi] {
-                        event_logger::write_event(log::Level::Info, format!("e{k}"), "m", "mod", "none");
+                        event_logger::write_event(if k % 3 == 0 { log::Level::Error } else if k % 5 == 0 { log::Level::Warn } else { log::Level::Info }, format!("e{k}"), "m", "mod", "none");
                     }
                     tokio::time::sleep(Duration::from_millis(1001)).await;
                     tokio::task::yield_now().await;
